@@ -31,7 +31,7 @@ FORD_OPTS = dict(display=["public", "private", "protected"], proc_internals=True
 
 def budget(tier):
     if tier == "quick":
-        return {"examples": 12800, "shrink_cap_s": 120}
+        return {"examples": 12800, "shrink_cap_s": 30}
     return {"examples": 64000, "shrink_cap_s": 280, "wall_cap_s": 3000}
 
 
